@@ -118,6 +118,9 @@ impl<R: DynamicChannelRegion> RegionHandler for DynamicChannelPlan<R> {
                     // unused channels are set to 0
                     if value == 0 {
                         self.channels[index] = None;
+                    } else if !self.frequency_valid(value) {
+                        // Frequencies outside of the region's band are ignored
+                        continue;
                     } else {
                         self.channels[index] = Some(Channel::new(value, DR::_0, DR::_5));
                     }
